@@ -40,14 +40,23 @@ Distinct(s) == \A i, j \in DOMAIN s : i # j => s[i] # s[j]
 
 Mk(cls, ex, kind, yv, xv) ==
   [span |-> <<1, 2, 3>>, kind |-> kind, cls |-> cls, names |-> cls \o ex,
-   ser |-> [x \in Range(cls \o ex) |-> SerOf(x, yv, xv)],
+   cdt |-> "f", ser |-> [x \in Range(cls \o ex) |-> SerOf(x, yv, xv)],
    st |-> <<Unsol, Unsol, Unsol>>, it |-> <<-1, -1, -1>>]
 
 RECURSIVE ExSum(_, _)
 ExSum(s, i) == IF i = 0 THEN 0 ELSE ExSum(s, i - 1) + i * ExIdx(s[i])
 ShardOfModel(c, ex, kind, yv, xv) == (KindIdx(kind) + 7 * c + 3 * ExSum(ex, Len(ex)) + yv[1] + 5 * (IF xv[2] = NaN THEN 1 ELSE 0)) % NShards
 
-ModelsS == UNION { { Mk(ClsSeq[c], ex, kind, yv, xv) :
+(* models constructed with dtype=int / dtype=bool: the class-level variables take that dtype *)
+TypedVals(x, cdt) ==
+  CASE cdt = "b" -> (CASE x = "Y" -> <<1, 0, 1>> [] x = "X" -> <<0, 0, 1>> [] OTHER -> <<1, 1, 0>>)
+    [] OTHER     -> (CASE x = "Y" -> <<1, 2, 3>> [] x = "X" -> <<4, 0, -1>> [] OTHER -> <<0, 9, 0>>)
+MkTyped(cls, ex, kind, cdt) ==
+  [Mk(cls, ex, kind, <<0, 0, 0>>, <<1, 2, 3>>) EXCEPT
+     !.cdt = cdt, !.ser = [x \in Range(cls \o ex) |-> IF x \in Range(cls) THEN [dt |-> cdt, v |-> TypedVals(x, cdt)] ELSE SerOf(x, <<>>, <<>>)]]
+TypedS == UNION { { MkTyped(ClsSeq[c], ex, kind, cdt) : ex \in {e \in {<<>>, <<"F">>, <<"S", "B">>} : (7 * c + KindIdx(kind) + Len(e)) % NShards = Shard}, cdt \in {"i", "b"} }
+                  : c \in 1..3, kind \in Kinds }
+ModelsS == TypedS \cup UNION { { Mk(ClsSeq[c], ex, kind, yv, xv) :
                        ex \in {e \in ExSeqs(MaxVars - Len(ClsSeq[c])) : Distinct(e) /\ ShardOfModel(c, e, kind, yv, xv) = Shard} }
                    : c \in 1..3, kind \in Kinds, yv \in YVals, xv \in XVals }
 NoModels == {}
